@@ -17,12 +17,13 @@
 (* server, destination "P" = the receiver's primary name, "S" = a          *)
 (* secondary local name, "F"/"F2" = names the receiver does not own,       *)
 (* body "none" / "B" / "B2" (JSON values) / "X" / "X2" (not UTF-8),        *)
-(* key "K"/"K2".  The signature is symbolic: "S0" verifies exactly for the *)
+(* "Oc" / "Pc" / "Sc" / "Fc" = the same name spelled in another letter case *)
+(* (server names are compared as spelled), key "K"/"K2".  The signature is symbolic: "S0" verifies exactly for the *)
 (* record `signed` it was made over (ed25519 assumed unforgeable).         *)
 (***************************************************************************)
 EXTENDS FedHeader, TLC
 
-CONSTANTS Methods, URIs, OriginShapes, DestShapes, Bodies, Styles, KeyVals, Cfgs, DestOwns,
+CONSTANTS Methods, URIs, OriginShapes, DestShapes, Spellings, Bodies, Styles, KeyVals, Cfgs, DestOwns,
           TamperKinds,    \* the tamperings explored
           MaxTamper,      \* at most this many tamperings per request
           Budget          \* (deviations from the base scenario) + (tamperings) <= Budget
@@ -45,14 +46,15 @@ AllTamperKinds ==
     {"method", "method_same", "uri", "origin", "drop_origin", "dest_local", "dest_foreign", "drop_dest",
      "body", "body_ws", "body_drop", "nonutf8", "ctype_text", "ctype_none", "ctype_param",
      "sig_flip", "drop_sig", "key_other", "drop_key", "scheme", "dup_header", "second_origin",
+     "origin_case", "dest_case", "second_case",
      "no_header", "extra_bearer"}
 
 \* the wire component a tampering rewrites; two tamperings of one component are one tampering
 Component(k) ==
     CASE k \in {"method", "method_same"} -> "method"
       [] k = "uri" -> "uri"
-      [] k \in {"origin", "drop_origin"} -> "horigin"
-      [] k \in {"dest_local", "dest_foreign", "drop_dest"} -> "hdest"
+      [] k \in {"origin", "drop_origin", "origin_case"} -> "horigin"
+      [] k \in {"dest_local", "dest_foreign", "drop_dest", "dest_case"} -> "hdest"
       [] k \in {"body", "body_ws", "body_drop", "nonutf8"} -> "body"
       [] k \in {"ctype_text", "ctype_none", "ctype_param"} -> "ctype"
       [] k \in {"sig_flip", "drop_sig"} -> "hsig"
@@ -74,13 +76,20 @@ None == [none |-> TRUE]
 \* deviations of a request / an emit style from the base scenario
 ReqDev(r) == (IF r.m = BaseMethod THEN 0 ELSE 1) + (IF r.u = BaseURI THEN 0 ELSE 1)
      + (IF r.os = BaseShape THEN 0 ELSE IF r.os \in ExtraInvalidOrigins THEN 2 ELSE 1) + (IF r.ds = BaseShape THEN 0 ELSE 1)
+     + (IF r.osp = "lower" THEN 0 ELSE 1) + (IF r.dsp = "lower" THEN 0 ELSE 1)
 StyleDev(st) == IF st = BaseStyle THEN 0 ELSE 1
 
+\* name shapes that contain letters, so that a name has spellings differing in case only
+\* (mixed-case DNS name with / without port, upper-case hex digits in an IPv6 literal)
+CaseShapes == {"dns", "port", "ipv6"}
+
 \* ------------------------------------------------------------------ sender
-Compose(m, u, os, ds, down, b) ==
+Compose(m, u, os, osp, ds, dsp, down, b) ==
     /\ phase = "init"
-    /\ ReqDev([m |-> m, u |-> u, os |-> os, ds |-> ds]) <= Budget      \* nothing beyond the budget is ever received
-    /\ req' = [m |-> m, u |-> u, os |-> os, ds |-> ds, down |-> down, body |-> b]
+    /\ osp = "mixed" => os \in CaseShapes
+    /\ dsp = "mixed" => ds \in CaseShapes
+    /\ ReqDev([m |-> m, u |-> u, os |-> os, ds |-> ds, osp |-> osp, dsp |-> dsp]) <= Budget   \* nothing beyond the budget is ever received
+    /\ req' = [m |-> m, u |-> u, os |-> os, osp |-> osp, ds |-> ds, dsp |-> dsp, down |-> down, body |-> b]
     /\ phase' = "composed"
     /\ UNCHANGED <<signed, wire, applied, rcv, out>>
 
@@ -98,7 +107,7 @@ Emit(style) ==
     /\ wire' = [method |-> signed.m, uri |-> signed.u, body |-> signed.b, ws |-> FALSE,
                 ctype |-> IF signed.b = "none" THEN "absent" ELSE "json",
                 scheme |-> "X-Matrix", origin |-> signed.o, dest |-> signed.d, key |-> signed.key, sig |-> "S0",
-                dup |-> FALSE, second |-> FALSE, nohdr |-> FALSE, bearer |-> FALSE, style |-> style]
+                dup |-> FALSE, second |-> FALSE, secondc |-> FALSE, nohdr |-> FALSE, bearer |-> FALSE, style |-> style]
     /\ phase' = "sent"
     /\ UNCHANGED <<req, signed, applied, rcv, out>>
 
@@ -110,6 +119,8 @@ Tamper(k) ==
     /\ Cardinality(applied) < MaxTamper
     /\ Dev + Cardinality(applied) < Budget
     /\ \A a \in applied : Component(a) # Component(k)
+    /\ k \in {"origin_case", "second_case"} => req.os \in CaseShapes     \* another spelling must exist
+    /\ k = "dest_case" => req.ds \in CaseShapes
     /\ applied' = applied \cup {k}
     /\ wire' =
          CASE k = "method"       -> [wire EXCEPT !.method = "M2"]
@@ -134,6 +145,9 @@ Tamper(k) ==
            [] k = "scheme"       -> [wire EXCEPT !.scheme = "Other"]
            [] k = "dup_header"   -> [wire EXCEPT !.dup = TRUE]
            [] k = "second_origin"-> [wire EXCEPT !.second = TRUE]
+           [] k = "second_case"  -> [wire EXCEPT !.secondc = TRUE]
+           [] k = "origin_case"  -> [wire EXCEPT !.origin = "Oc"]
+           [] k = "dest_case"    -> [wire EXCEPT !.dest = @ \o "c"]
            [] k = "no_header"    -> [wire EXCEPT !.nohdr = TRUE]
            [] k = "extra_bearer" -> [wire EXCEPT !.bearer = TRUE]
     /\ UNCHANGED <<phase, req, signed, rcv, out>>
@@ -182,15 +196,18 @@ Headers(w) ==
     \o (IF w.nohdr THEN <<>>
         ELSE <<Header(w, w.origin)>>
              \o (IF w.dup THEN <<Header(w, w.origin)>> ELSE <<>>)
-             \o (IF w.second THEN <<Header(w, "O2")>> ELSE <<>>))
+             \o (IF w.second THEN <<Header(w, "O2")>> ELSE <<>>)
+             \o (IF w.secondc THEN <<Header(w, "Oc")>> ELSE <<>>))
 
 \* ---------------------------------------------------------------- receiver
-OriginValid(o) == o = "O2" \/ (o = "O" /\ req.os \notin InvalidOrigins)
-Owned(d, cfg)  == d = "P" \/ (cfg = "multi" /\ d = "S")
+OriginValid(o) == o = "O2" \/ (o \in {"O", "Oc"} /\ req.os \notin InvalidOrigins)
+\* (a multi-homed receiver also lists the other spellings of its names: only the signature can refuse those)
+Owned(d, cfg)  == d = "P" \/ (cfg = "multi" /\ d \in {"S", "Pc", "Sc"})
 JSONType(c)    == c \in {"json", "jsonparam"}
 UTF8(b)        == b \in {"B", "B2"}
 \* the key database: (O, K) in state kv; (O2, K) a valid key of the other server; nothing else
-KeyValidNow(o, key, kv) == (o = "O" /\ key = "K" /\ kv \in {"valid", "validfar"}) \/ (o = "O2" /\ key = "K")
+\* (the key of O is also filed under the other spelling Oc)
+KeyValidNow(o, key, kv) == (o \in {"O", "Oc"} /\ key = "K" /\ kv \in {"valid", "validfar"}) \/ (o = "O2" /\ key = "K")
 
 Verdict(w, cfg, kv) ==
     LET hs == Headers(w)
@@ -227,9 +244,10 @@ Init == /\ phase = "init" /\ req = None /\ signed = None /\ wire = None
         /\ applied = {} /\ rcv = None /\ out = None
 
 Next == \/ /\ phase = "init"       \* (guards repeated outside the quantifiers: TLC evaluates them first)
-           /\ \E m \in Methods, u \in URIs, os \in OriginShapes, ds \in DestShapes, down \in DestOwns, b \in Bodies :
+           /\ \E m \in Methods, u \in URIs, os \in OriginShapes, ds \in DestShapes, down \in DestOwns, b \in Bodies,
+                 osp \in Spellings, dsp \in Spellings :
                  /\ (ds = "invalid" => down = "F")       \* a receiver owns no invalid name
-                 /\ Compose(m, u, os, ds, down, b)
+                 /\ Compose(m, u, os, osp, ds, dsp, down, b)
         \/ Sign("K")
         \/ /\ phase = "signed"
            /\ \E st \in Styles : Emit(st)
@@ -265,12 +283,12 @@ Complete ==
     => out.accept
 
 \* the refusal clauses of the property sentence, one by one
-RefuseForeign   == (Done /\ ~Owned(signed.d, rcv.cfg) /\ "drop_dest" \notin applied /\ "dest_local" \notin applied) => ~out.accept
-RefuseNoHeader  == (Done /\ applied \cap {"no_header", "scheme", "drop_origin", "drop_key", "drop_sig", "second_origin"} # {}) => ~out.accept
+RefuseForeign   == (Done /\ ~Owned(signed.d, rcv.cfg) /\ applied \cap {"drop_dest", "dest_local", "dest_case"} = {}) => ~out.accept
+RefuseNoHeader  == (Done /\ applied \cap {"no_header", "scheme", "drop_origin", "drop_key", "drop_sig", "second_origin", "second_case"} # {}) => ~out.accept
 RefuseBadOrigin == (Done /\ req.os \in InvalidOrigins /\ "origin" \notin applied) => ~out.accept
 RefuseBadBody   == (Done /\ wire.body # "none" /\ (wire.ctype \in {"text", "absent"} \/ wire.body \in {"X", "X2"})) => ~out.accept
 RefuseBadKey    == (Done /\ rcv.kv \notin {"valid", "validfar"}) => ~out.accept
-RefuseChanged   == (Done /\ applied \cap {"method", "uri", "origin", "dest_local", "dest_foreign", "body", "nonutf8", "sig_flip", "key_other"} # {}) => ~out.accept
+RefuseChanged   == (Done /\ applied \cap {"method", "uri", "origin", "dest_local", "dest_foreign", "body", "nonutf8", "sig_flip", "key_other", "origin_case", "dest_case"} # {}) => ~out.accept
 
 TypeOK == /\ phase \in {"init", "composed", "signed", "sent", "received"}
           /\ Cardinality(applied) <= MaxTamper
